@@ -203,7 +203,7 @@ func genC15(r *hx.Rng, tier string, w io.Writer) {
 	// ---- random scenarios
 	n := 140
 	if tier == "thorough" {
-		n = 700
+		n = 500
 	}
 	for i := 0; i < n; i++ {
 		noFinal := i%2 == 0
